@@ -896,20 +896,30 @@ def _gen_c17(rng, seed, tier):
     # biased scenario (40 %): unsorted labels, a relabelling that reorders tables and is NOT followed by a
     # recalculation, then a selection / drop / fuse that has to find the right rows again
     scenario = rng.random() < 0.4
+    # second biased scenario (15 %): three or four valves at pipe ends, unsorted labels, relabellings followed by a
+    # recalculation (the internal nodes of such valves are matched to their pipes through sorted label pairs)
+    scenario2 = (not scenario) and fam != "heat" and rng.random() < 0.25
     program, meta = netgen.gen_program(rng, family=fam, max_junctions=rng.choice([4, 6, 8]),
-                                       sorted_labels=False if scenario else rng.random() < 0.5, kinds=kinds)
+                                       sorted_labels=False if (scenario or scenario2) else rng.random() < 0.5, kinds=kinds,
+                                       many_pi=scenario2)
     nops = rng.randint(0, 2) if scenario else rng.randint(1, 5 if tier == "quick" else 10)
     ops = []
     for _ in range(nops):
-        kind = rng.choice(["reindex_junctions", "reindex_junctions", "reindex_pipes", "reindex_elements", "continuous_junction",
-                           "continuous_elements", "drop_junctions", "drop_pipes", "drop_elements_at_junctions",
-                           "fuse_junctions", "select_subnet", "calc"])
+        pool = ["reindex_junctions", "reindex_junctions", "reindex_pipes", "reindex_elements", "continuous_junction",
+                "continuous_elements", "drop_junctions", "drop_pipes", "drop_elements_at_junctions",
+                "fuse_junctions", "select_subnet", "calc"]
+        if scenario2:
+            pool = ["reindex_junctions", "reindex_pipes", "reindex_pipes", "reindex_elements", "continuous_elements", "continuous_junction"]
+        kind = rng.choice(pool)
         ops.append({"op": kind, "r": rng.randrange(1 << 30)})
     if scenario:
         ops.append({"op": rng.choice(["continuous_elements", "continuous_elements", "continuous_elements", "reindex_pipes",
                                       "reindex_elements", "continuous_junction"]), "r": rng.randrange(1 << 30), "no_resolve": True})
         ops.append({"op": rng.choice(["select_subnet", "select_subnet", "select_subnet", "drop_junctions", "fuse_junctions"]),
                     "r": rng.randrange(1 << 30), "with_results": True})
+    if scenario2:
+        for o in ops:
+            o["resolve"] = True
     return {"engine": ENGINE, "prop": "C17", "seed": seed, "tier": tier, "program": program, "meta": meta, "ops": ops}
 
 
@@ -1174,7 +1184,7 @@ def _exec_c17(trace, res):
                 break
             res.count("probe:carried-results-compared")
         # ---- physics: relabelling leaves results unchanged ---------------------------------------------
-        if relabel_only and base_res is not None and not op.get("no_resolve") and rng.random() < 0.5:
+        if relabel_only and base_res is not None and not op.get("no_resolve") and (rng.random() < 0.5 or op.get("resolve")):
             # (only every other time: a later operation must also cope with result tables that were
             # relabelled but not recalculated)
             out = _solve(net, meta)
